@@ -439,7 +439,15 @@ fn argv_of(keys: &[Vec<u8>], op: &ROp, _exact_case: bool) -> Argv {
                 a(&[b"GETSET", &keys[*k], v])
             }
         }
-        ROp::SetNx { k, v } => a(&[b"SETNX", &keys[*k], v]),
+        // likewise SETNX k v and the one-pair MSETNX k v (same reply, same effect; the multi-key
+        // command has its own route through the sharded state)
+        ROp::SetNx { k, v } => {
+            if v.iter().map(|b| *b as usize).sum::<usize>() % 2 == 0 {
+                a(&[b"MSETNX", &keys[*k], v])
+            } else {
+                a(&[b"SETNX", &keys[*k], v])
+            }
+        }
         ROp::Del { k } => a(&[b"DEL", &keys[*k]]),
         ROp::Cas { k, expect, new } => a(&[b"EVAL", CAS_SCRIPT, b"1", &keys[*k], expect, new]),
         ROp::Rmw { k, s } => a(&[b"EVAL", RMW_SCRIPT, b"1", &keys[*k], s]),
